@@ -474,6 +474,7 @@ func runC04(c *Ctx) {
 	R.Require("T.stop", 2, "")
 	R.Require("T.append-all", 1, "")
 	R.Require("S.fastpath", 3, "")
+	c.messagePerFrame("S.message-per-frame")
 	R.Explain = "Segmentation independence is decided structurally: the buffered path appends the whole read and from then on never looks at the read again, so its result is a function of (pending bytes ++ read); the extraction loop is proved (abstract interpretation with a ghost scan pointer and inferred loop invariants) to take exactly the shortest delimited prefix each time, to leave exactly the bytes behind it, and to stop only when no complete frame is left; the fast path is taken only with an empty buffer for a read that is exactly one delimited frame. " +
 		"Together these make the extracted sequence a function of the concatenated byte stream for streams of valid frames. Not decided: behaviour on garbage between frames (the buffered path waits, the fast path fails), and the decoder itself (C02)."
 }
